@@ -43,6 +43,10 @@ def st_case(draw):
             c["params"]["contact_point"] = draw(st.floats(-0.3, 0.3)) * c["depth"]
     # optionally a prior fit on the same object whose interval differs only slightly (a few nm or one sample):
     # the second request must not be mistaken for the first
+    if src["kind"] == "synth" and not cfg["optimal_fit_edelta"] and draw(st.integers(0, 5)) == 0:
+        # a record with three segments (approach / pause / retract): any of them may be fitted
+        src["curve"]["n_pause"] = draw(st.integers(20, 60))
+        cfg["segment"] = draw(st.sampled_from([0, 1, 2, 2]))
     prior = draw(st.sampled_from([None, None, "nm", "nm", "sample"]))
     return {"src": src, "cfg": cfg, "prior": prior, "prior_shift": draw(st.floats(0.5e-9, 9e-9)),
             "prior_sign": draw(st.sampled_from([1, -1]))}
